@@ -180,7 +180,7 @@ func (w *world) genByz(r *sim.Rand) *sim.Step {
 	}
 	mode := int64(0)
 	if r.Chance(0.15) {
-		mode = int64(1 + r.Intn(5))
+		mode = int64(1 + r.Intn(6))
 	}
 	return &sim.Step{Op: "byz", A: []int64{int64(r.Intn(len(w.byzIdx))), tmpl, round, int64(r.Weighted(4, 4, 2, 1, 1)), pr, mask, int64(r.U64() >> 1), forge, mode}}
 }
@@ -296,12 +296,17 @@ func (w *world) attack(r *sim.Rand) {
 		p = append(p, bz(from, tCommit, round, val, 0, sub, 0))
 	}
 	p = append(p, fl(non))
+	if r.Chance(0.4) { // operators that accepted the proposal but are a commit short get the certificate with other data attached
+		for from := range w.byzIdx {
+			p = append(p, bz(from, tDecided, round, val, 0, all&^sub, 6))
+		}
+	}
 	for _, i := range w.honestIdx {
 		p = append(p, sim.Step{Op: "timeout", A: []int64{int64(i)}})
 	}
 	p = append(p, fl(all))
 	next := round + 1
-	mode := int64(1 + r.Intn(5))
+	mode := int64(1 + r.Intn(6))
 	for from := range w.byzIdx {
 		p = append(p, bz(from, tRoundChange, next, other, 0, all, 0))
 	}
